@@ -103,6 +103,18 @@ CHECKS["C14"] = dict(level="model_checking", design="5 C14", note=_PANEL_NOTE + 
          "undeformed state; buckling and frequency lists of axis-exchanged and (s,e,q)-similar plates are required to be "
          "equal / scaled by e*s and sqrt(e/q)/s at 2^-30.")
 
+CHECKS["C15"] = dict(level="model_checking", design="5 C15", note=_PANEL_NOTE + " The step from nested matrices to monotone "
+    "eigenvalues is Courant-Fischer (cited); eigenvalues themselves are observations through the dense solver paths; the "
+    "convergence clause uses a calibrated allowance (10x margin, harness/c15_calibration.json).",
+    technique="TLA+ module Nested: principal-sub-matrix law K(m,n) = embedded block of K(m+1,n), K(m,n+1) and Rayleigh quotients of "
+              "probe vectors >= closed-form lower bracket as exact TLC invariants (pi carried as a rational interval); code side: "
+              "sub-matrix comparison of real matrices and first-eigenvalue sequences for increasing orders judged by the trace "
+              "spec against the brackets TLC computes",
+    text="Nestedness is decided exactly on the specification and observed on the code's matrices for m,n in 4..16; the eigenvalue "
+         "clauses (non-increasing under refinement, never below the double-sine closed form, converging to it) are decided by TLC "
+         "on observed lb/freq values using rational brackets of the closed forms for aspect ratios 1/5..5, cross-ply and single-ply "
+         "laminates and uniaxial/biaxial load ratios.")
+
 NOT_YET = {}
 
 NA = {
